@@ -27,11 +27,52 @@ def flatten(lhs, tree, depth=0):
         yield (lhs, t)
 
 
-def stores(body, include_locals=True):
+def _inlinable_store_callee(body, c):
+    """an in-workspace helper (not known by name to any rule, see facts.Program.opaque_names) that writes through
+    its reference parameters: its stores are attributed to the caller"""
+    prog = getattr(body.unit, "prog", None)
+    if prog is None or c is None or c["name"] in prog.opaque_names():
+        return None
+    cal = prog.bodies.get(c.get("resolved") or c["key"])
+    if cal is None or cal.is_closure or cal is body or cal.unit.crate != body.unit.crate or len(cal.blocks) > 120:
+        return None
+    if not any(cal.local_ty(i)["k"] == "ref" for i in range(1, cal.argc + 1)):
+        return None
+    return cal
+
+
+def stores(body, include_locals=True, _depth=0):
     """List of dict(bb, idx, line, lhs, tree, whole_tree, macro) for every assignment to a projected place and
-    every call whose destination is a projected place."""
+    every call whose destination is a projected place. Stores made by a transparent helper through its reference
+    parameters appear as stores of the caller at the call (lhs and value rewritten to the caller's terms)."""
     pv = df.Prov(body)
     out = []
+    if _depth < 2:
+        for bi, b in enumerate(body.blocks):
+            t = b["term"]
+            if b["cleanup"] or t["k"] != "call":
+                continue
+            c0 = mir.callee_of(t)
+            cal = _inlinable_store_callee(body, c0)
+            if cal is None or cal.argc != len(t["args"]):
+                continue
+            sub, _ = stores(cal, include_locals=False, _depth=_depth + 1)
+            if not sub:
+                continue
+            argtrees = {i + 1: pv.op_tree(a) for i, a in enumerate(t["args"])}
+            names = {cal.local_name(i): i for i in range(1, cal.argc + 1) if cal.local_name(i)}
+            for s_ in sub:
+                root = s_["lhs"].split(".")[0]
+                if root not in names:
+                    continue
+                base = df.canon(df._project(argtrees[names[root]], "*"), body) if df.strip(argtrees[names[root]])[0] != "path" \
+                    else df.canon(argtrees[names[root]], body)
+                base = base[1:] if base.startswith("&") else base
+                lhs = base + s_["lhs"][len(root):]
+                tree = df._subst_params(s_["tree"], argtrees)
+                out.append({"bb": bi, "idx": len(b["stmts"]), "line": t["sp"][1], "lhs": lhs, "tree": tree,
+                            "whole": df._subst_params(s_["whole"], argtrees), "macro": t["sp"][4], "stmt": t,
+                            "inlined_from": cal.key})
     for bi, b in enumerate(body.blocks):
         if b["cleanup"]:
             continue
